@@ -155,18 +155,20 @@ theorem single_flight (ops : List Op) (pre post : List Item) (t : Nat) (loc : Lo
     ∃ m, feedAll {} pre = some m ∧ m.okRequest t loc = true :=
   event_checked ops pre post _ h
 
-/-- `failure_cached`: while a download of `loc` from the current uncache-epoch exists whose lookup was not
-    cancelled (in particular one that failed and was answered with absence), no new request for `loc` is issued. -/
+/-- `failure_cached`: while a download of `loc` exists that certainly belongs to the current uncache-epoch
+    (requested in it, no lookup from before the uncache was unfinished then) and whose lookup was not cancelled
+    — in particular one that failed and was answered with absence — no new request for `loc` is issued. -/
 theorem failure_cached (ops : List Op) (pre post : List Item) (t : Nat) (loc : Loc)
     (h : run ops = pre ++ Item.ev (.requested t loc) :: post) :
     ∃ m, feedAll {} pre = some m ∧
-      ∀ d ∈ m.dls, d.loc = loc → d.epoch = m.epochOf loc → m.statusOf d.owner = some .cancelled := by
+      ∀ d ∈ m.dls, d.loc = loc → d.epoch = m.epochOf loc → d.minEpoch = d.epoch →
+        m.statusOf d.owner = some .cancelled := by
   obtain ⟨m, h1, h2⟩ := single_flight ops pre post t loc h
   refine ⟨m, h1, ?_⟩
-  intro d hd hl he
+  intro d hd hl he hmin
   simp only [Mon.okRequest, Bool.and_eq_true, List.all_eq_true] at h2
   have := h2.2 d hd
-  simpa [hl, he] using this
+  simpa [hl, he, hmin] using this
 
 /-- `shared_outcome` / `uncache_race` (monitor clause `okReturn`): whatever a lookup returns is the released
     outcome of a download of its location, requested after the lookup was created or in the uncache-epoch the
